@@ -218,7 +218,13 @@ fn ref_find(e: &[(u8, u8, u8); MAXN], n: usize, t: Option<u8>, k: u8) -> Option<
 
 /// the list's stored entries are exactly the live entries of `e` (in order), plus `extra` at its sorted position
 fn assert_key_state(l: &KeyExpList<Key, u8, u8>, e: &[(u8, u8, u8); MAXN], n: usize, t: u8, extra: Option<(u8, u8, u8)>) {
-    let (snap, min_exp) = l.verif_snapshot();
+    // non-allocating accessors only (no snapshot vector to drop)
+    let len = l.verif_len();
+    let min_exp = l.verif_min_exp();
+    let at = |j: usize| -> (u8, u8, u8) {
+        let (k, v) = l.verif_entry(j);
+        (k.k, k.x, v)
+    };
     let mut j = 0;
     let mut i = 0;
     let mut extra_done = extra.is_none();
@@ -226,27 +232,27 @@ fn assert_key_state(l: &KeyExpList<Key, u8, u8>, e: &[(u8, u8, u8); MAXN], n: us
         if e[i].1 > t {
             if let Some(x) = extra {
                 if !extra_done && x.0 < e[i].0 {
-                    assert!(j < snap.len() && snap[j].0.k == x.0 && snap[j].0.x == x.1 && snap[j].1 == x.2);
+                    assert!(j < len && at(j) == x);
                     j += 1;
                     extra_done = true;
                 }
             }
-            assert!(j < snap.len() && snap[j].0.k == e[i].0 && snap[j].0.x == e[i].1 && snap[j].1 == e[i].2);
+            assert!(j < len && at(j) == e[i]);
             j += 1;
         }
         i += 1;
     }
     if let Some(x) = extra {
         if !extra_done {
-            assert!(j < snap.len() && snap[j].0.k == x.0 && snap[j].0.x == x.1 && snap[j].1 == x.2);
+            assert!(j < len && at(j) == x);
             j += 1;
         }
     }
-    assert!(j == snap.len());
+    assert!(j == len);
     // cached earliest expiration stays a lower bound of what is stored (never lets an expired entry be observed)
     let mut q = 0;
-    while q < snap.len() {
-        assert!(min_exp <= snap[q].0.x);
+    while q < len {
+        assert!(min_exp <= at(q).1);
         q += 1;
     }
 }
